@@ -64,6 +64,7 @@ type Case struct {
 	FailNode int           `json:"failnode"` // ... on this node
 	Seed     uint64        `json:"seed"`    // latency PRNG
 	GenSeed  uint64        `json:"genseed"` // generator seed (regenerates the case)
+	Thorough bool          `json:"thorough"` // generated with the thorough-tier size distribution
 }
 
 var errInjected = errors.New("verif: injected callback failure")
@@ -198,6 +199,18 @@ func (s srcWRef) FetchReference(ctx context.Context, ref string) (ocispec.Descri
 type dstW struct {
 	r     *rec
 	under oras.Target
+	dmu   sync.Map // digest -> *sync.Mutex
+}
+
+// lockDigest serialises the wrapper's operations on one digest, so that for two
+// descriptors with the same bytes ("twins", one key in a digest-keyed store) the
+// recorded order of Exists/Push events is the order of their effects.  Operations
+// on different digests are not affected.
+func (d *dstW) lockDigest(t ocispec.Descriptor) func() {
+	m, _ := d.dmu.LoadOrStore(t.Digest.String(), &sync.Mutex{})
+	mu := m.(*sync.Mutex)
+	mu.Lock()
+	return mu.Unlock
 }
 
 func (d *dstW) Fetch(ctx context.Context, t ocispec.Descriptor) (io.ReadCloser, error) {
@@ -206,6 +219,7 @@ func (d *dstW) Fetch(ctx context.Context, t ocispec.Descriptor) (io.ReadCloser, 
 
 func (d *dstW) Exists(ctx context.Context, t ocispec.Descriptor) (bool, error) {
 	n := d.r.node(t)
+	defer d.lockDigest(t)()
 	d.r.ev(fmt.Sprintf("XB.%d", n), 0, 1)
 	d.r.delay()
 	ok, err := d.under.Exists(ctx, t)
@@ -228,6 +242,7 @@ func (d *dstW) push(ctx context.Context, t ocispec.Descriptor, rd io.Reader, ref
 	if ref != "" {
 		isRef = 1
 	}
+	defer d.lockDigest(t)()
 	d.r.ev(fmt.Sprintf("PB.%d.%d", n, isRef), 0, 1)
 	d.r.delay()
 	err := d.under.Push(ctx, t, rd)
@@ -607,7 +622,14 @@ func ModelInput(res *Result) string {
 	d0 := append([]int(nil), c.D0...)
 	sort.Ints(d0)
 	return fmt.Sprintf("%d %d %s %d %s %s %s %s rp=%s:%d:%d:%d", len(g.Nodes), c.K, c.Mode, root, ints(cached0),
-		strings.Join(nodes, ";"), ints(d0), tr, c.Stream, c.GenSeed, len(g.Nodes), c.Seed)
+		strings.Join(nodes, ";"), ints(d0), tr, c.Stream, c.GenSeed, b2i(c.Thorough), c.Seed)
+}
+
+func b2i(b bool) int {
+	if b {
+		return 1
+	}
+	return 0
 }
 
 func ints(xs []int) string {
